@@ -751,6 +751,7 @@ class Emitter:
         m = s.mod
         o = []
         w = o.append
+        s.cur_loops = {}
         s.cur_defs = {ins.res: ins for b in f.blocks for ins in b.insts if ins.res is not None}
         args = ', '.join('%s v_%s' % (s.ctype(t), cid(n)) for t, n in f.params) or 'void'
         w('%s %s(%s) {' % (s.ctype(f.ret), s.gname(f.name), args))
@@ -774,7 +775,11 @@ class Emitter:
                     if lbl == frm:
                         cp.append('p_%s = %s;' % (cid(ph.res), s.val(ph.ty, v)))
                         break
-            return ' '.join(cp) + ' goto L_%s;' % cid(to)
+            mark = ''
+            lp = s.cur_loops.get(to)
+            if lp is not None and frm in lp['body']:
+                mark = ' /*LOOPBACK d=%d nest=%d*/' % (lp['depth'], lp['nest'])
+            return ' '.join(cp) + ' goto L_%s;%s' % (cid(to), mark)
         # reverse post-order so that only real loop back-edges are backward gotos
         succ = {}
         for b in f.blocks:
@@ -807,6 +812,11 @@ class Emitter:
                         x = st.pop()
                         if x not in body:
                             body.add(x); st.extend(preds[x])
+        s.cur_loops = {}
+        for h, bd in loops.items():
+            depth = sum(1 for h2, bd2 in loops.items() if h2 != h and h in bd2)
+            nest = 1 if any(h2 != h and h2 in bd for h2 in loops) else 0
+            s.cur_loops[h] = {'body': bd, 'depth': depth, 'nest': nest}
         def inloops(n): return [h for h, bd in loops.items() if n in bd]
         memb = {n: set(inloops(n)) for n in names}
         for n in names:
